@@ -193,6 +193,27 @@ package client
 //@   (istype(prop, "*SubChannelProposalMsg") ==> istype(acc, "*SubChannelProposalAccMsg")) &&
 //@   (istype(prop, "*VirtualChannelProposalMsg") ==> istype(acc, "*VirtualChannelProposalAccMsg"))
 
+// validChannelProposalAcc: an accept message is taken only if it has the kind that belongs to the proposal and names the
+// proposal's ID (C08: accept message must match the proposal).
+//@ pred accIDEq(prop ChannelProposal, acc ChannelProposalAccept) =
+//@   (istype(prop, "*LedgerChannelProposalMsg") ==> forall k int :: 0 <= k && k < 32 ==> as(prop, "*LedgerChannelProposalMsg").ProposalID[k] == as(acc, "*LedgerChannelProposalAccMsg").ProposalID[k]) &&
+//@   (istype(prop, "*SubChannelProposalMsg") ==> forall k int :: 0 <= k && k < 32 ==> as(prop, "*SubChannelProposalMsg").ProposalID[k] == as(acc, "*SubChannelProposalAccMsg").ProposalID[k]) &&
+//@   (istype(prop, "*VirtualChannelProposalMsg") ==> forall k int :: 0 <= k && k < 32 ==> as(prop, "*VirtualChannelProposalMsg").ProposalID[k] == as(acc, "*VirtualChannelProposalAccMsg").ProposalID[k])
+//@ func (*Client).validChannelProposalAcc
+//@   requires proposal != nil && response != nil
+//@   ensures result == nil ==> accMatches(proposal, response) && accIDEq(proposal, response)
+
+// The responder goes on with an accept message only after it passed validChannelProposalAcc (verified up to that call; what
+// follows - sending the message, completing the protocol, funding - is out of scope here).
+//@ func (*Client).acceptChannelProposal
+//@   trusted
+//@   modifies *
+//@ func (*Client).handleChannelProposalAcc
+//@   requires c != nil && c.log != nil && prop != nil && acc != nil
+//@   modifies *
+//@   cutafter (*Client).acceptChannelProposal
+//@   callsite (*Client).acceptChannelProposal : accMatches(prop, acc) && accIDEq(prop, acc)
+
 // The participant list: proposer's address first, responder's second (ledger and virtual channels); the parent's list for sub-channels.
 //@ func (*Client).mpcppParts
 //@   requires c != nil && prop != nil && acc != nil && accMatches(prop, acc)
